@@ -18,6 +18,38 @@ CHECKS = {
              'checker judge each return value. Exploration is the right level: the domain is infinite and the refuting '
              'event (an escaping exception, a malformed document, disagreeing codes) is directly observable.',
         note='trusted: vmon/strictjson.py, vmon/models/wire.py; probe methods return JSON-encodable values'),
+    'C02': dict(
+        category='exploration', design_ref='DESIGN.md §3 C02',
+        technique='runtime monitor: executable JSON-RPC server model + metamorphic batch=elements relation over dispatch()',
+        text='Single requests over all id typings and batches over 15 element kinds (exhaustive to length 2/3, sampled to 5; '
+             'duplicate ids at every pair, size limits at and around the length) are dispatched on both real dispatchers; '
+             'responses (count, order, ids with JSON type, result values) and the multiset of probe-method executions are '
+             'compared with an independent reference model, and every accepted batch is re-run element by element.',
+        note='trusted: vmon/models/server.py (pure-Python model), vmon/strictjson.py; probe methods log every execution'),
+    'C03': dict(
+        category='exploration', design_ref='DESIGN.md §3 C03',
+        technique='runtime monitor: failure-table reference model + leak-marker search on the raw response text',
+        text='Every failure kind (not JSON, invalid request/batch, unknown method, unbindable params, protocol errors over '
+             'codes incl. 0/huge, empty messages, every data shape incl. absent vs null, 11 exception types with marker '
+             'strings) is driven as call, notification and batch element on both dispatchers and compared with the failure '
+             'table; exception type names, marker strings and traceback text are searched in the raw response.',
+        note='trusted: vmon/models/server.py, vmon/strictjson.py; data/message of library-generated errors are not judged'),
+    'C05': dict(
+        category='exploration', design_ref='DESIGN.md §3 C05',
+        technique='runtime monitor: round-trip oracle (to_json -> text -> strict decode -> from_json -> to_json) with field-wise comparison',
+        text='Generated requests, responses, errors, batches and batch-level errors (nested/empty/edge JSON values, all id '
+             'typings, registered/unregistered codes incl. 0, empty messages, three base classes in both orders) are taken '
+             'through both encoders and back; wire-form exactness is judged on an independently decoded text, exception '
+             'classes with type identity; batch objects additionally through serialise/append/extend histories.',
+        note='trusted: vmon/strictjson.py; generator vmon/gen/values.py; -0.0 vs 0.0 not distinguished'),
+    'C06': dict(
+        category='exploration', design_ref='DESIGN.md §3 C06',
+        technique='runtime monitor: exhaustive member-alphabet product through from_json + list-model of append/extend histories',
+        text='The full 16^4 product of request objects, 16^3 error objects, 16^3x18 response objects, non-object inputs, all '
+             'batch arrays of <= 3 elements over 12 element shapes and all append/extend histories of <= 3 (sampled 4) '
+             'operations over 6 ids are executed; the exception type and the accepted/refused verdict are compared with '
+             'validity predicates, batch contents with a list model after every operation.',
+        note='trusted: validity predicates in vmon/monitors/c06.py; float ids and rejection of valid values are not judged'),
 }
 
 NOT_BUILT_REASON = 'no check registered yet in this round (monitor under construction, see DESIGN.md §3)'
